@@ -14,6 +14,7 @@ var keyLiteralRx = regexp.MustCompile(`"([^"]+)":(true|false|null|-?\d+)$`)
 func checkC05(c *Check) {
 	c.Explanation = "JSON validity and key agreement of generated code, decided per generated type over every corpus (not by writing any JSON): (1) well-formedness — each WriteJSONOpt is interpreted over an abstract JSON automaton (stack of open containers × grammar phase): constant fragments are tokenised, basictl.JSONWrite*/nested WriteJSON* calls count as one value, JSONAddCommaIfNeeded adds a comma unless the previous byte opens a container, and the backup/rollback idiom restores the saved state; on every path no token is out of place and every success return leaves exactly one complete value; (2) data discipline — the only non-constant bytes reaching the buffer come from basictl.JSONWrite* or a nested writer; (3) key tables — the set of keys the writer can emit equals the set of `case` labels of the type's ReadJSONGeneral, and for each key the writer's operand (field) is the field the reader's case fills, with dual codecs (JSONWriteX ↔ Json2ReadX, nested writer ↔ nested reader of the same family). String escaping, base64 fallback and number spelling are C34's tables."
 	c.NotCovered = "equality of TL1/TL2 encodings after a JSON round trip for all values (needs execution); strconv/easyjson behaviour (trusted)"
+	c.Trusted = []string{"go/types", "strconv / easyjson escaping behaviour", "basictl JSON helper bodies (token tables read from their source)"}
 	c.Assumptions = []string{"union index is within range (set only by generated accessors and readers: C43, C02)", "JSONWriteContext.Short is a write-only migration mode (a …Long union is written under its non-Long sibling's type names; readers have no such mode): names emitted under it are outside the round trip"}
 	writers, keysChecked, unions, dictKeys := 0, 0, 0, 0
 	withCorpora(c, true, func(g *genCtx) {
